@@ -258,6 +258,7 @@ type world struct {
 	regs    map[string]wmsg         // "A/7" -> registered message
 	waiters map[string]chan wmsg    // token handlers of pending Do calls of A
 	cancels []context.CancelFunc
+	connCtx context.Context // the connections' context: cancelled when the case ends
 }
 
 func (w *world) log(s string) { w.mu.Lock(); w.events = append(w.events, s); w.mu.Unlock() }
@@ -326,17 +327,37 @@ func (w *world) next(e *endpoint) func(rw *responsewriter.ResponseWriter[*endpoi
 // recv: the network hands m to e (what a connection's receive path does around Handle).
 func (w *world) recv(e *endpoint, m wmsg) {
 	w.log("arr " + e.name + " " + m.String())
-	req := e.p.AcquireMessage(context.Background())
-	m.fill(req)
-	resp := e.p.AcquireMessage(context.Background())
-	resp.SetToken(req.Token())
-	rw := responsewriter.New(resp, e, req.Options()...)
-	e.bw.Handle(rw, req, e.szx, e.max, w.next(e))
-	if rw.Message().IsModified() {
-		w.send(e, snapshot(rw.Message()))
+	// the receive path of a connection: the message (whose context is the connection's) is handled in a goroutine of
+	// its own; a Handle call that is still blocked when everything else is at rest is reported (`stuck <side>`)
+	done := make(chan struct{})
+	go func() {
+		defer close(done)
+		defer func() {
+			if r := recover(); r != nil {
+				w.log("panic " + strings.ReplaceAll(fmt.Sprint(r), " ", "_"))
+			}
+		}()
+		req := e.p.AcquireMessage(w.connCtx)
+		m.fill(req)
+		resp := e.p.AcquireMessage(w.connCtx)
+		resp.SetToken(req.Token())
+		rw := responsewriter.New(resp, e, req.Options()...)
+		e.bw.Handle(rw, req, e.szx, e.max, w.next(e))
+		if w.connCtx.Err() != nil {
+			return // released by the end of the case, not by the layer
+		}
+		if rw.Message().IsModified() {
+			w.send(e, snapshot(rw.Message()))
+		}
+		e.p.ReleaseMessage(rw.Message())
+		e.p.ReleaseMessage(req)
+	}()
+	synctest.Wait()
+	select {
+	case <-done:
+	default:
+		w.log("stuck " + e.name)
 	}
-	e.p.ReleaseMessage(rw.Message())
-	e.p.ReleaseMessage(req)
 }
 
 func newEndpoint(w *world, name string, szx int, max uint32, exp time.Duration) *endpoint {
@@ -551,6 +572,9 @@ func runCase(t *testing.T, cfg []string, ops [][]string) []string {
 	out := make([]string, len(ops))
 	synctest.Test(t, func(t *testing.T) {
 		w := &world{regs: map[string]wmsg{}, waiters: map[string]chan wmsg{}}
+		var connCancel context.CancelFunc
+		w.connCtx, connCancel = context.WithCancel(context.Background())
+		w.cancels = append(w.cancels, connCancel)
 		w.a = newEndpoint(w, "A", atoi(cfg[1]), uint32(atoi(cfg[2])), time.Duration(atoi(cfg[3]))*time.Millisecond)
 		w.b = newEndpoint(w, "B", atoi(cfg[4]), uint32(atoi(cfg[5])), time.Duration(atoi(cfg[6]))*time.Millisecond)
 		ended := false
